@@ -69,6 +69,8 @@ def gen_c12_case(rng: random.Random):
     bad = rng.random() < 0.3
     case = {"kind": kind, "impact": impact, "event_type": rng.choice(["recovery", "rebuild"]), "bad": None,
             "emf": rng.choice([10**6, 10**6, 1, 10**3])}
+    if case["event_type"] == "rebuild" and random.Random(repr(impact) + kind).random() < 0.5:
+        case["reb_factor"] = random.Random(repr(impact) + kind + "f").choice([0.9, 2.0, 0.5])     # (the tutorial's example uses 0.9)
 
     def weights(keys, universe):
         mode = rng.choice(["equal", "exact", "superset", "unsorted", "unnormalised", "tiny", "nearly_normalised", "huge_int", "superset_neg"])
@@ -196,18 +198,26 @@ def run_c12_impl(case):
     kw = dict(occurrence=1, duration=1, event_monetary_factor=case.get("emf", 10**6))
     if case["event_type"] == "rebuild":
         kw.update(event_type="rebuild", rebuild_tau=10, rebuilding_sectors={"build": 1.0})
+        if case.get("reb_factor") is not None:
+            kw["rebuilding_factor"] = case["reb_factor"]
     else:
         kw.update(event_type="recovery", recovery_tau=5)
+    given = []          # the caller's own weight vectors, and what they held when handed over
     try:
         if case["kind"] == "industries":
             w = case["weights"]
             distrib = "equal" if w is None else pd.Series({tuple(k): v for k, v in w}, dtype=_c12_dtype([v for _, v in w]))
             if w is not None:
                 distrib.index = pd.MultiIndex.from_tuples(list(distrib.index), names=["region", "sector"]) if len(distrib) else distrib.index
+            if w is not None:
+                given.append((distrib, distrib.copy(deep=True)))
             ev = bev.from_scalar_industries(case["impact"], affected_industries=[tuple(a) for a in case["aff"]], impact_distrib=distrib, **kw)
         elif case["kind"] == "regions_sectors":
             wr = "equal" if case["wr"] is None else pd.Series({k: v for k, v in case["wr"]}, dtype=_c12_dtype([v for _, v in case["wr"]]))
             ws = "equal" if case["ws"] is None else pd.Series({k: v for k, v in case["ws"]}, dtype=_c12_dtype([v for _, v in case["ws"]]))
+            for w_ in (wr, ws):
+                if not isinstance(w_, str):
+                    given.append((w_, w_.copy(deep=True)))
             ev = bev.from_scalar_regions_sectors(case["impact"], affected_regions=list(case["regs"]), affected_sectors=list(case["secs"]),
                                                  impact_regional_distrib=wr, impact_sectoral_distrib=ws, **kw)
         else:
@@ -217,6 +227,9 @@ def run_c12_impl(case):
             ev = bev.from_series(s, **kw)
     except Exception as e:
         return {"out": "reject", "exc": f"{type(e).__name__}: {str(e)[:100]}"}
+    for obj, was in given:
+        if not (obj.index.equals(was.index) and np.array_equal(obj.to_numpy(), was.to_numpy(), equal_nan=True)):
+            return {"out": "ok", "impact": {}, "order": [], "total": float(ev.total_impact), "aff": [], "weights_modified": True}
     imp = ev.impact
     if imp.index.has_duplicates:
         return {"out": "ok", "impact": {}, "order": [], "total": float(ev.total_impact), "aff": [], "duplicated_index": True}
@@ -277,6 +290,8 @@ def explore_c12(tier, seed):
                     viol(res, "C12", f"invalid input accepted ({case['bad']})", case=case, impl=impl)
             elif impl["out"] != "ok":
                 viol(res, "C12", "valid input rejected", case=case, impl=impl)
+            elif impl.get("weights_modified"):
+                viol(res, "C12", "the weight vector given by the caller was modified by the constructor (a second event built from it gets other shares)", case=case)
             elif impl.get("duplicated_index"):
                 viol(res, "C12", "per-industry impact has a duplicated industry", case=case)
             else:
@@ -383,6 +398,9 @@ def malformed_cases():
         io.A = io.A * 1.5
         ARIOPsiModel(io)
     cases.append(("technical coefficients inconsistent with Z and x", inconsistent_A))
+    _secs_m = scen.labels(tb)[1]
+    cases.append(("capital ratio dictionary missing a sector",
+                  lambda: scen.build_model(tb, dict(cfg, capital={"kind": "dict", "values": {s_: 4 for s_ in _secs_m[:-1]}}))))
     cases.append(("psi above 1", lambda: scen.build_model(tb, dict(cfg, psi=1.2))))
     cases.append(("psi above 1 (string)", lambda: scen.build_model(tb, dict(cfg, psi="1_5"))))
     cases.append(("psi above 1 (string 1_2)", lambda: scen.build_model(tb, dict(cfg, psi="1_2"))))
